@@ -64,6 +64,17 @@ where
     }
 }
 
+#[cfg(feature = "verif-hooks")]
+impl<K: fmt::Debug> TokenMap<K> {
+    /// Verification hook: all keys with their tokens.
+    pub(crate) fn verif_entries(&self) -> Vec<(String, Token)> {
+        self.map
+            .iter()
+            .map(|(k, t)| (format!("{k:?}"), *t))
+            .collect()
+    }
+}
+
 /// Pool key which is used to identify a connection - using scheme
 /// and authority.
 #[derive(Debug, Clone, Hash, PartialEq, Eq)]
